@@ -551,6 +551,10 @@ def r_fir(r):
         ents[r.randrange(len(ents))] = (0, 0)
     if ents and r.random() < 0.3:
         ents.append((r.choice(ents)[0], r_u8(r)))    # re-add: last wins
+    if r.random() < 0.12:
+        # a long history: 21..48 calls over a few SSRCs, re-adds with other sequence numbers, in any order
+        ssrcs = [r_u32(r) for _ in range(r.randint(3, 12))]
+        ents = [(r.choice(ssrcs), r_u8(r)) for _ in range(r.randint(21, 48))]
     return {"k": "fir", "entries": ents}
 
 
